@@ -1,5 +1,5 @@
 (* [Variables] (C15): the default section of the INI parser.  Values are templates; a ${NAME} placeholder is
-   resolved from the section itself, then from [Variables]; ${SECTION:KEY} from that section.  The stdlib's
+   resolved from [Variables], then from the section itself; ${SECTION:KEY} from that section.  The stdlib's
    ExtendedInterpolation is an oracle: `interp` states what it is assumed to do. *)
 From V Require Import lib.Common model.Store.
 Local Open Scope nat_scope.
@@ -27,11 +27,12 @@ Fixpoint interp (fuel : nat) (st : tstore) (s : sect) (t : template) : option (l
         match fr with
         | Lit n => Some (n :: rest)
         | Var name =>
-            (* an option of the current section whose text is NAME (an option name or a species key) shadows [Variables] *)
-            match (match lookup s (KOpt name) st with Some t' => Some t' | None => lookup s (KSp name) st end) with
-            | Some t' => option_map (fun x => x ++ rest) (interp fuel' st s t')
-            | None => match lookup SVariables (KOpt name) st with
-                      | Some t' => option_map (fun x => x ++ rest) (interp fuel' st SVariables t')
+            (* [Variables] first (_VariablesFirstInterpolation, at every nesting level); a name it does not define is looked for
+               among the options of the section the text belongs to (an option name or a species key) *)
+            match lookup SVariables (KOpt name) st with
+            | Some t' => option_map (fun x => x ++ rest) (interp fuel' st s t')      (* the variable's value is read in the context of s *)
+            | None => match (match lookup s (KOpt name) st with Some t' => Some t' | None => lookup s (KSp name) st end) with
+                      | Some t' => option_map (fun x => x ++ rest) (interp fuel' st s t')
                       | None => None
                       end
             end
